@@ -41,7 +41,27 @@ def _paths_eq(p, q):
     return len(p) == len(q) and all(len(a) == len(b) and all(_eq(x, y) for x, y in zip(a, b)) for a, b in zip(p, q))
 
 
-def check_case(sink, c, o):  # noqa: C901
+class _Abort(Exception):
+    pass
+
+
+def _spec_paths(sink, ident, sp, what='paths'):
+    """treespec.paths() / .accessors() of a treespec that a traversal just returned: raising is a verdict about optree."""
+    try:
+        return sp.paths() if what == 'paths' else sp.accessors()
+    except Exception as e:  # noqa: BLE001
+        sink.violation(f'paths/treespec.{what}()-raises/{type(e).__name__}', 'the paths / accessors recomputed later from the treespec alone equal the ones the traversals returned', ident, repr(e)[:300])
+        raise _Abort from None
+
+
+def check_case(sink, c, o):
+    try:
+        _check_case(sink, c, o)
+    except _Abort:
+        pass
+
+
+def _check_case(sink, c, o):  # noqa: C901
     ident = dict(c.ident(), opt=repr(o))
     kw = o.kw()
     with o.ctx():
@@ -78,7 +98,7 @@ def check_case(sink, c, o):  # noqa: C901
             for name, sp, lv in (('with_path', spec_b, leaves_b), ('with_accessor', spec_c, leaves_c), ('tree_structure', spec_f, leaves_d)):
                 d = same.diff(c.tree, sp.unflatten(lv), leaf_ids=lids)
                 sink.check(d is None, f'spec-unflatten/{name}', f'the treespec returned by {name} rebuilds the same tree (types, key order, metadata, leaves)', ident, d)
-                sink.check(_paths_eq(sp.paths(), spec.paths()) and [tuple(e.entry for e in a) for a in sp.accessors()] == [tuple(e.entry for e in a) for a in spec.accessors()]
+                sink.check(_paths_eq(_spec_paths(sink, ident, sp), _spec_paths(sink, ident, spec)) and [tuple(e.entry for e in a) for a in _spec_paths(sink, ident, sp, 'accessors')] == [tuple(e.entry for e in a) for a in _spec_paths(sink, ident, spec, 'accessors')]
                            and sp.num_nodes == spec.num_nodes and sp.num_leaves == spec.num_leaves,
                            f'spec-paths/{name}', f'the treespec returned by {name} has the same paths, accessors and counts', ident)
         # the lazy iterator, consumed in pieces with other operations (on the same tree and treespec) in between, and two iterators
@@ -106,8 +126,8 @@ def check_case(sink, c, o):  # noqa: C901
         sink.check(_ids(got1) == _ids(leaves) and _ids(got2) == _ids(leaves), 'leaves/tree_iter-interleaved', 'a lazily, piecewise consumed tree_iter yields the identical leaves in the identical order', ident,
                    lambda: (got1, got2, leaves))
         sink.check(next(it1, 'done') == 'done' and next(it2, 'done') == 'done', 'tree_iter/exhausted-stays-exhausted', 'an exhausted iterator stays exhausted', ident)
-        later_paths = spec.paths()
-        later_acc = spec.accessors()
+        later_paths = _spec_paths(sink, ident, spec)
+        later_acc = _spec_paths(sink, ident, spec, 'accessors')
         sink.check(_paths_eq(paths_b, later_paths), 'paths/with_path-vs-spec', 'flatten_with_path paths equal treespec.paths()', ident, lambda: (paths_b, later_paths))
         sink.check(_paths_eq(paths_g, later_paths), 'paths/tree_paths-vs-spec', 'tree_paths equal treespec.paths()', ident, lambda: (paths_g, later_paths))
         sink.check(_paths_eq(optree.treespec_paths(spec_b), later_paths), 'paths/treespec_paths', 'treespec_paths agrees', ident)
